@@ -150,6 +150,10 @@ def decide(pid, tier, seed, t0, cfg, claimed, deps, functions, unsupported, assu
         if ob.meta.get('missing_function'):
             undecided.append((ob, 'function under contract is missing or renamed'))
             continue
+        if ob.meta.get('stale_contract'):
+            undecided.append((ob, 'the sidecar contract of %s names %s, which the function no longer has (restructured source): contract out of date, nothing is concluded'
+                              % (ob.func, ', '.join(ob.meta['stale_contract'][:4]))))
+            continue
         if ob.meta.get('untracked'):
             # the clause mentions a value the engine could not track on this path (e.g. a renamed local): never a violation
             undecided.append((ob, 'clause could not be evaluated on the tracked state (untracked value / renamed local)'))
